@@ -29,6 +29,7 @@ type specEnv struct {
 	old     heapState
 	pkg     *types.Package
 	depth   int
+	inPat   bool // evaluating a trigger pattern: no conditional terms
 }
 
 type specErr struct{ msg string }
@@ -156,6 +157,14 @@ func (e *specEnv) eval(x Expr) sv {
 	case *EAssert:
 		v := e.eval(n.X)
 		ty := c.eng.resolveType(e.pkg, n.Type)
+		if !isInterface(v.ty) {
+			// the name denotes a variable that already has the asserted type (the variable of a type
+			// switch shadows the interface-typed one of the same name)
+			if types.Identical(types.Unalias(v.ty), types.Unalias(ty)) {
+				return v
+			}
+			specFail("type assertion on a value of type %s", v.ty)
+		}
 		return sv{c.unbox(ty, v.t), ty}
 	case *ESel:
 		return e.evalSel(n)
@@ -218,9 +227,11 @@ func (e *specEnv) eval(x Expr) sv {
 			}
 		}
 		var pats []string
+		ne.inPat = true
 		for _, p := range n.Pats {
 			pats = append(pats, ne.eval(p).t)
 		}
+		ne.inPat = false
 		if n.Forall {
 			if len(pats) > 0 {
 				return sv{forall(vars, body.t, strings.Join(pats, " ")), tBool}
@@ -314,6 +325,9 @@ func (e *specEnv) evalBinary(n *EBinary) sv {
 		return sv{r, tBool}
 	case "<", "<=", ">", ">=":
 		if isStrT(a.ty) {
+			if !e.c.inAxiom {
+				e.c.usesStrLt = true
+			}
 			switch n.Op {
 			case "<":
 				return sv{app("str_lt", a.t, b.t), tBool}
@@ -377,9 +391,15 @@ func (e *specEnv) index(b, i sv) sv {
 	case *types.Array:
 		return sv{sel(b.t, i.t), tt.Elem()}
 	case *types.Map:
-		_, val, _ := c.mapHeaps(tt)
+		dom, val, _ := c.mapHeaps(tt)
 		v := c.heapGet(val, c.heapSort[val])
-		return sv{sel2(v, b.t, i.t), tt.Elem()}
+		if e.inPat {
+			return sv{sel2(v, b.t, i.t), tt.Elem()}
+		}
+		// Go's m[k]: the zero value when the key is absent (or the map is nil)
+		d := c.heapGet(dom, c.heapSort[dom])
+		present := and(not(eq(b.t, "0")), sel2(d, b.t, i.t))
+		return sv{ite(present, sel2(v, b.t, i.t), c.zero(tt.Elem())), tt.Elem()}
 	}
 	specFail("cannot index %s", b.ty)
 	return sv{}
